@@ -343,20 +343,58 @@ func (m *Machine) concretize(t *Term) uint64 {
 // choose returns a nondeterministic value in [0,n).
 func (m *Machine) choose(n int) uint64 {
 	p := m.path
-	name := fmt.Sprintf("choice!%d", len(p.taken))
-	v := m.T.Var(name, 64)
-	m.assume(m.T.Bin(OpUlt, v, m.T.Const(64, uint64(n))))
-	return m.concretize(v)
+	return m.chooseVar(m.T.Var(fmt.Sprintf("choice!%d", len(p.taken)), 64), n)
 }
 
 // chooseRecorded is choose for harness-visible choices (replayed natively in order).
 func (m *Machine) chooseRecorded(n int) uint64 {
 	p := m.path
-	name := fmt.Sprintf("hchoice!%d", len(p.choices))
-	v := m.T.Var(name, 64)
+	v := m.T.Var(fmt.Sprintf("hchoice!%d", len(p.choices)), 64)
 	p.choices = append(p.choices, v)
-	m.assume(m.T.Bin(OpUlt, v, m.T.Const(64, uint64(n))))
-	return m.concretize(v)
+	return m.chooseVar(v, n)
+}
+
+// chooseVar forks over the n values of a fresh, otherwise unconstrained variable. No solver
+// query is needed: every value is feasible.
+func (m *Machine) chooseVar(v *Term, n int) uint64 {
+	p := m.path
+	p.assumes++
+	i := len(p.taken)
+	var val uint64
+	if i < len(p.prefix) {
+		d := p.prefix[i]
+		if !d.IsVal {
+			panic(abort{"engine", "decision vector out of sync (expected a choice)"})
+		}
+		val = d.Val
+	} else {
+		for k := n - 1; k >= 1; k-- {
+			alt := make([]Decision, i+1)
+			copy(alt, p.taken)
+			alt[i] = Decision{IsVal: true, Val: uint64(k)}
+			m2 := make(map[string]uint64, len(p.model)+1)
+			for a, b := range p.model {
+				m2[a] = b
+			}
+			m2[v.Name] = uint64(k)
+			p.forks = append(p.forks, Work{Prefix: alt, Model: m2})
+		}
+		val = 0
+		if p.model == nil {
+			p.model = map[string]uint64{}
+		}
+		if p.model[v.Name] != 0 {
+			mm := make(map[string]uint64, len(p.model))
+			for a, b := range p.model {
+				mm[a] = b
+			}
+			mm[v.Name] = 0
+			m.setModel(mm)
+		}
+	}
+	p.taken = append(p.taken, Decision{IsVal: true, Val: val})
+	m.addPC(m.T.Eq(v, m.T.Const(64, val)))
+	return val
 }
 
 // assume adds c to the path condition, ending the path if it cannot hold.
